@@ -253,6 +253,22 @@ def covers1(arr, mn):
                      patterns=[z3.Select(arr.data, i_)])
 
 
+_SA = z3.ArraySort(Int, Str)
+E1_m = z3.Function("encode1d_count", _SA, Int, Int)
+E1_uv = z3.Function("encode1d_names", _SA, Int, _SA)
+E1_ui = z3.Function("encode1d_ids", _SA, Int, z3.ArraySort(Int, Int))
+E1_enc = z3.Function("encode1d_encoded", _SA, Int, z3.ArraySort(Int, Int))
+
+
+def canonical_plate_ids(s):
+    """plate ids are the encoder's output for the plate names (they are never taken from a supplied mapping)"""
+    r = z3.Int("r!cp")
+    n = nrows(s)
+    pn = G(s, "plate_names")
+    return z3.ForAll([r], z3.Implies(z3.And(r >= 0, r < n), z3.Select(G(s, "_plate_ids").data, r) == z3.Select(E1_enc(pn.data, pn.shape[0]), r)),
+                     patterns=[z3.Select(G(s, "_plate_ids").data, r)])
+
+
 e1 = contract(E1)
 e1.trusted = True
 e1.note = "assumed (pandas drop_duplicates/sort_values/merge): dense faithful encoding of a 1-D name array; existing mapping followed verbatim"
@@ -264,9 +280,10 @@ def _e1_apply(i, a, node, fr):
     arr = a.arr
     n = arr.shape[0]
     if a.existing_mapping is None:
-        m = ctx.fresh("n_names", Int)
-        uv = Arr((m,), ctx.fresh("uniq_names", z3.ArraySort(Int, arr.elem_sort)), arr.dtype)
-        ui = Arr((m,), ctx.fresh("uniq_ids", z3.ArraySort(Int, Int)), "int")
+        # the encoder is a deterministic FUNCTION of its input array: results are applications of uninterpreted functions
+        m = E1_m(arr.data, n)
+        uv = Arr((m,), E1_uv(arr.data, n), arr.dtype)
+        ui = Arr((m,), E1_ui(arr.data, n), "int")
         k, k2, j = z3.Int("k!e1"), z3.Int("k2!e1"), z3.Int("j!e1")
         ctx.assume(z3.And(m >= 0, m <= n, z3.Implies(n > 0, m >= 1)))
         for f in str_order_axioms():
@@ -287,7 +304,7 @@ def _e1_apply(i, a, node, fr):
                     z3.And(keys_distinct1(uv, m), ui.shape[0] == m), node, "call")
         if ctx.decide(z3.Not(covers1(arr, uv))):
             raise PyRaise(ExcVal("ValueError"), node)
-    enc = Arr((n,), ctx.fresh("enc_ids", z3.ArraySort(Int, Int)), "int")
+    enc = Arr((n,), E1_enc(arr.data, n) if a.existing_mapping is None else ctx.fresh("enc_ids", z3.ArraySort(Int, Int)), "int")
     pos = z3.Function("encpos!%d" % enc.ident, Int, Int)
     j = z3.Int("j!e1b")
     ctx.assume(z3.ForAll([j], z3.Implies(z3.And(j >= 0, j < n),
@@ -515,7 +532,7 @@ def mapping_wf(o):
 
 def screen_wf(s):
     """class invariant of Screen (established by the verified constructor contract)"""
-    return (screen_shape_wf(s) + plate_consistency(s) + mapping_wf(s) + [
+    return (screen_shape_wf(s) + plate_consistency(s) + mapping_wf(s) + [canonical_plate_ids(s),
         decodes1(G(s, "_sample_ids"), G(s, "_sample_names"), *G(s, "_sample_mapping")),
         decodes1(G(s, "_plate_ids"), G(s, "plate_names"), *G(s, "_plate_mapping")),
         treatment_decodes(s, G(s, "_treatment_names"), G(s, "_treatment_doses"))])
@@ -541,6 +558,7 @@ def _init_post(a, ret, st):
         out.append(("default_unobserved", z3.ForAll([k], z3.Implies(z3.And(k >= 0, k < n), z3.And(
             z3.Not(z3.Select(msk.data, k)), z3.Select(obs.data, k) == const_of(FS(), 0))), patterns=[z3.Select(msk.data, k)])))
     out.append(("plates", z3.And(*plate_consistency(o))))
+    out.append(("plate_ids_canonical", canonical_plate_ids(o)))
     smn, smi = G(o, "_sample_mapping")
     out.append(("sample_ids_decode", decodes1(G(o, "_sample_ids"), a.sample_names, smn, smi)))
     pmn, pmi = G(o, "_plate_mapping")
